@@ -73,7 +73,10 @@ type Relay struct {
 	KeyKnown      string `json:"key_known"`                 // none | config | url | both
 	KnownKeyWrong bool   `json:"known_key_wrong,omitempty"` // the known key is key 8, not the relay's
 	GraceMs       int    `json:"grace_ms,omitempty"`
-	Script        []Resp `json:"script"`
+	// BadAddress: the configured address is unusable (no relay behind it):
+	// unparseable-bracket | unparseable-space | unparseable-port | refused
+	BadAddress string `json:"bad_address,omitempty"`
+	Script     []Resp `json:"script"`
 }
 
 // BuilderCfg is the configuration of one builder of the pool.
@@ -84,13 +87,29 @@ type BuilderCfg struct {
 	Category string  `json:"category"`
 }
 
-// Case is one auction.
+// Triple names what an auction or a beacon node's request is for, relative to the case's slot.
+type Triple struct {
+	SlotDelta int `json:"slot_delta"`
+	Parent    int `json:"parent"`
+	Key       int `json:"key"`
+}
+
+// Step is one call on the block relay service: AuctionBlock ("auction") or BuilderBid ("bid").
+type Step struct {
+	Op string `json:"op"`
+	T  int    `json:"t"` // index into Triples
+}
+
+// Case is one auction, or (History non-empty, via blockrelay) a short history of
+// auctions and beacon-node requests on one block relay service.
 type Case struct {
 	Strategy string       `json:"strategy"` // best | deadline
 	Via      string       `json:"via"`      // strategy | blockrelay
 	Slot     uint64       `json:"slot"`
 	Relays   []Relay      `json:"relays"`
 	Builders []BuilderCfg `json:"builders"`
+	Triples  []Triple     `json:"triples,omitempty"` // Triples[0] is always {0,0,0}
+	History  []Step       `json:"history,omitempty"`
 }
 
 func bigOf(s string) *big.Int {
@@ -279,6 +298,9 @@ func genCase(t *rapid.T, strategy, via string) Case {
 		if chance(t, "hasGrace", 25) {
 			rl.GraceMs = rangeU(t, "grace", 5, 40)
 		}
+		if nRelays > 1 {
+			rl.BadAddress = pick(t, "badAddress", opt{"", 95}, opt{"unparseable-bracket", 1}, opt{"unparseable-space", 1}, opt{"unparseable-port", 1}, opt{"refused", 2})
+		}
 		n := 1
 		if strategy == "deadline" {
 			n = []int{1, 1, 2, 2, 3, 4}[uniform(t, "scriptLen", 6)]
@@ -288,7 +310,53 @@ func genCase(t *rapid.T, strategy, via string) Case {
 		}
 		c.Relays = append(c.Relays, rl)
 	}
+	if via == "blockrelay" && chance(t, "history", 60) {
+		genHistory(t, &c)
+	}
 	return c
+}
+
+// genHistory adds 2-4 triples that share slot and proposer but differ in parent (and some that
+// differ in slot or proposer) and 2-6 steps over them, with at most three bid strategy runs.
+func genHistory(t *rapid.T, c *Case) {
+	pool := []Triple{{0, 1, 0}, {0, 1, 0}, {0, 2, 0}, {0, 0, 1}, {0, 1, 1}}
+	if c.Strategy == "best" {
+		// the deadline strategy's deadline belongs to the slot; another slot would be 12 s away
+		pool = append(pool, Triple{1, 0, 0}, Triple{1, 1, 0})
+	}
+	c.Triples = []Triple{{0, 0, 0}}
+	n := rangeU(t, "nTriples", 2, 4)
+	for len(c.Triples) < n {
+		tr := pool[uniform(t, "triple", len(pool))]
+		dup := false
+		for _, x := range c.Triples {
+			dup = dup || x == tr
+		}
+		if !dup {
+			c.Triples = append(c.Triples, tr)
+		}
+	}
+	steps := rangeU(t, "nSteps", 2, 6)
+	ran := map[int]bool{} // triples for which the strategy has run (auction or immediate fetch)
+	runs := 0
+	for i := 0; i < steps; i++ {
+		st := Step{Op: pick(t, "op", opt{"auction", 45}, opt{"bid", 55}), T: uniform(t, "stepTriple", len(c.Triples))}
+		needsRun := st.Op == "auction" || !ran[st.T]
+		if needsRun && runs >= 3 {
+			// no budget for another run: ask for something that has been auctioned
+			st.Op = "bid"
+			for k := range c.Triples {
+				if ran[k] {
+					st.T = k
+					break
+				}
+			}
+		} else if needsRun {
+			runs++
+			ran[st.T] = true
+		}
+		c.History = append(c.History, st)
+	}
 }
 
 // ---------------------------------------------------------------------------------------------
@@ -370,17 +438,49 @@ type observation struct {
 	hungCall  bool
 	// blockrelay layer
 	layer *layerObs
+	hist  *histObs
 }
 
-var parentHash = phase0.Hash32(tag("c09-parent"))
-var proposerPubkey = func() phase0.BLSPubKey {
+var parentHash = parentOf(0)
+var proposerPubkey = proposerOf(0)
+
+func parentOf(i int) phase0.Hash32 {
+	if i == 0 {
+		return phase0.Hash32(tag("c09-parent"))
+	}
+	return phase0.Hash32(tag(fmt.Sprintf("c09-parent-%d", i)))
+}
+
+func proposerOf(i int) phase0.BLSPubKey {
 	var p phase0.BLSPubKey
 	t := tag("c09-proposer")
+	if i > 0 {
+		t = tag(fmt.Sprintf("c09-proposer-%d", i))
+	}
 	copy(p[:], t[:])
 	copy(p[32:], t[:16])
 	p[0] = 0x8f
 	return p
-}()
+}
+
+// tripleVal is a Triple resolved against the case.
+type tripleVal struct {
+	slot   phase0.Slot
+	parent phase0.Hash32
+	pubkey phase0.BLSPubKey
+	slotTs uint64
+}
+
+func badAddress(kind string, i int) string {
+	switch kind {
+	case "unparseable-bracket":
+		return fmt.Sprintf("http://[::%d", i+1)
+	case "unparseable-space":
+		return fmt.Sprintf("http://relay %d.example/", i)
+	default:
+		return fmt.Sprintf("http://127.0.0.1:port%d", i)
+	}
+}
 
 func run(c *Case) (*observation, error) {
 	initBLS()
@@ -400,42 +500,78 @@ func run(c *Case) (*observation, error) {
 	}
 
 	done := make(chan struct{})
-	wantPath := fmt.Sprintf("/eth/v1/builder/header/%d/%#x/%#x", c.Slot, parentHash[:], proposerPubkey[:])
+	trs := c.Triples
+	if len(trs) == 0 {
+		trs = []Triple{{0, 0, 0}}
+	}
+	triples := make([]tripleVal, len(trs))
+	for k, tr := range trs {
+		slot := phase0.Slot(int64(c.Slot) + int64(tr.SlotDelta))
+		triples[k] = tripleVal{slot: slot, parent: parentOf(tr.Parent), pubkey: proposerOf(tr.Key), slotTs: uint64(clock.StartOfSlot(slot).Unix())}
+	}
+	if triples[0].slotTs != slotTs || trs[0] != (Triple{}) {
+		return nil, fmt.Errorf("first triple must be the case's own slot, parent and proposer")
+	}
 	relays := make([]*relayDouble, len(c.Relays))
 	relayConfigs := make([]*beaconblockproposer.RelayConfig, len(c.Relays))
+	o.prepared = make([][]*prepared, len(c.Relays))
+	// live relays first, refused ones last, so that a freed port is not taken by a later relay of the case
+	order := make([]int, 0, len(c.Relays))
 	for i := range c.Relays {
+		if c.Relays[i].BadAddress != "refused" {
+			order = append(order, i)
+		}
+	}
+	for i := range c.Relays {
+		if c.Relays[i].BadAddress == "refused" {
+			order = append(order, i)
+		}
+	}
+	for _, i := range order {
 		rl := &c.Relays[i]
-		script := make([]*prepared, len(rl.Script))
-		for j := range rl.Script {
-			script[j] = prepare(&rl.Script[j], i, slotTs, parentHash)
+		variants := make([]*relayVariant, len(triples))
+		for k, tv := range triples {
+			script := make([]*prepared, len(rl.Script))
+			for j := range rl.Script {
+				r := rl.Script[j]
+				r.Header += 100 * k // another slot, parent or proposer means another payload
+				script[j] = prepare(&r, i, tv.slotTs, tv.parent)
+			}
+			variants[k] = &relayVariant{path: fmt.Sprintf("/eth/v1/builder/header/%d/%#x/%#x", tv.slot, tv.parent[:], tv.pubkey[:]), script: script}
 		}
-		o.prepared = append(o.prepared, script)
-		relays[i] = newRelay(i, script, wantPath, done)
-		u, err := url.Parse(relays[i].srv.URL)
-		if err != nil {
-			return nil, err
-		}
-		o.ports[u.Host] = i
-		known := pubOf(i)
-		if rl.KnownKeyWrong {
-			known = pubOf(8)
-		}
-		address := relays[i].srv.URL
+		o.prepared[i] = variants[0].script
 		rc := &beaconblockproposer.RelayConfig{
 			FeeRecipient: nonZeroFeeRecipient,
 			GasLimit:     30_000_000,
 			Grace:        time.Duration(rl.GraceMs) * time.Millisecond,
 			MinValue:     decimal.NewFromBigInt(bigOf(rl.MinValue), 0),
 		}
-		if rl.KeyKnown == "url" || rl.KeyKnown == "both" {
-			address = fmt.Sprintf("http://%s@%s", hx(known[:]), u.Host)
+		relayConfigs[i] = rc
+		known := pubOf(i)
+		if rl.KnownKeyWrong {
+			known = pubOf(8)
 		}
 		if rl.KeyKnown == "config" || rl.KeyKnown == "both" {
 			pk := phase0.BLSPubKey(known)
 			rc.PublicKey = &pk
 		}
-		rc.Address = address
-		relayConfigs[i] = rc
+		if strings.HasPrefix(rl.BadAddress, "unparseable") {
+			rc.Address = badAddress(rl.BadAddress, i)
+			continue
+		}
+		relays[i] = newRelay(i, variants, done)
+		u, err := url.Parse(relays[i].srv.URL)
+		if err != nil {
+			return nil, err
+		}
+		o.ports[u.Host] = i
+		rc.Address = relays[i].srv.URL
+		if rl.KeyKnown == "url" || rl.KeyKnown == "both" {
+			rc.Address = fmt.Sprintf("http://%s@%s", hx(known[:]), u.Host)
+		}
+		if rl.BadAddress == "refused" {
+			relays[i].srv.Close() // nothing listens at the address any more
+		}
 	}
 	cleanup := func() {
 		select {
@@ -444,8 +580,10 @@ func run(c *Case) (*observation, error) {
 			close(done)
 		}
 		for _, r := range relays {
-			r.srv.CloseClientConnections()
-			r.srv.Close()
+			if r != nil {
+				r.srv.CloseClientConnections()
+				r.srv.Close()
+			}
 		}
 	}
 	defer cleanup()
@@ -505,6 +643,24 @@ func run(c *Case) (*observation, error) {
 		if err != nil {
 			return nil, err
 		}
+		if len(c.History) > 0 {
+			meter := startLagMeter()
+			o.hist = layer.runHistory(ctx, c, triples, func() { close(done) })
+			o.maxLag = meter.finish()
+			cleanup()
+			for _, r := range relays {
+				if r != nil {
+					r.mu.Lock()
+					o.badPaths += r.badPath
+					r.mu.Unlock()
+				}
+			}
+			cancel()
+			for i := 0; i < 200 && runtime.NumGoroutine() > baseline+2; i++ {
+				time.Sleep(5 * time.Millisecond)
+			}
+			return o, nil
+		}
 		auction = func(ctx context.Context) (*blockauctioneer.Results, error) {
 			return layer.svc.AuctionBlock(ctx, phase0.Slot(c.Slot), parentHash, proposerPubkey)
 		}
@@ -562,6 +718,9 @@ func run(c *Case) (*observation, error) {
 	o.maxLag = meter.finish()
 	cleanup()
 	for i, r := range relays {
+		if r == nil {
+			continue
+		}
 		r.mu.Lock()
 		o.served = append(o.served, r.served...)
 		o.badPaths += r.badPath
@@ -737,6 +896,11 @@ func buildCandidates(c *Case, o *observation, rd rounding, perturbed bool, j *ju
 			// lists it as eligible, the implementation refuses bids without value; not judged
 			cd.elig = maybe
 			j.labels["zero-value-nonzero-score"] = true
+		} else if cd.score.Sign() < 0 {
+			// a negative score is "non-zero", so the statement calls the bid eligible and the strategies let it
+			// win; but eligibility is then not monotone in the value (the same builder's higher bid can score 0),
+			// which the statement cannot have meant to demand: such a bid may win, it is not required to
+			cd.elig = maybe
 		}
 		switch {
 		case !s.At.After(o.deadline.Add(-guard)):
@@ -983,6 +1147,10 @@ func check(t ev.TB, c *Case) {
 		t.Fatalf("harness problem: %v", err)
 		return
 	}
+	if o.hist != nil {
+		checkHistory(t, c, o)
+		return
+	}
 	perturbed := o.maxLag > lagLimit || o.maxPipe > pipelineLimit
 	j := judge(c, o, floorDiv, perturbed)
 	if j.ambiguous && len(j.verdicts) > 0 {
@@ -1008,6 +1176,9 @@ func check(t ev.TB, c *Case) {
 		labels = append(labels, "returned>100ms-after-deadline")
 	}
 	for i := range c.Relays {
+		if c.Relays[i].BadAddress != "" {
+			j.labels["bad-address:"+c.Relays[i].BadAddress] = true
+		}
 		for k := range c.Relays[i].Script {
 			switch r := &c.Relays[i].Script[k]; {
 			case r.Kind == "hang":
@@ -1081,6 +1252,50 @@ func TestDeadline(t *testing.T) {
 		c := genCase(t, "deadline", "strategy")
 		check(t, &c)
 	})
+}
+
+func checkHistory(t ev.TB, c *Case, o *observation) {
+	vs, ls, nontrivial := judgeHistory(c, o.hist)
+	labels := []string{"strategy=" + c.Strategy, "via=" + c.Via, "history", fmt.Sprintf("relays=%d", len(c.Relays))}
+	for l := range ls {
+		labels = append(labels, l)
+	}
+	for i := range c.Relays {
+		if c.Relays[i].BadAddress != "" {
+			labels = append(labels, "bad-address:"+c.Relays[i].BadAddress)
+		}
+	}
+	if nontrivial {
+		labels = append(labels, "history:two-parents-auctioned-then-bid-requested")
+	}
+	if o.hist.hung {
+		labels = append(labels, "call-needed-release")
+	}
+	sort.Strings(labels)
+	ev.Case(nontrivial, ev.Hash(c), dedup(labels)...)
+	if nontrivial {
+		ev.Sample(c)
+	}
+	if o.badPaths > 0 {
+		t.Fatalf("harness problem: %d header requests with an unexpected path", o.badPaths)
+	}
+	if o.hist.hung {
+		ev.Inconclusive("a call of the history returned only after the relays were released")
+		return
+	}
+	for _, v := range vs {
+		ev.Violation(t, v.sig, c, "[%s via %s, history] %s", c.Strategy, c.Via, v.detail)
+	}
+}
+
+func dedup(in []string) []string {
+	var out []string
+	for i, s := range in {
+		if i == 0 || s != in[i-1] {
+			out = append(out, s)
+		}
+	}
+	return out
 }
 
 // TestLayer runs the auction through services/blockrelay/standard (AuctionBlock,
